@@ -149,6 +149,13 @@ def ghost_specs():
     S["enc"] = GhostSpec("enc", lambda e, st, a: _bm().enc_term(e, st, a[0]))
     S["dec"] = GhostSpec("dec", lambda e, st, a: VStr(None, _bm().DEC(a[0].t)))
     S["sub"] = GhostSpec("sub", lambda e, st, a: _bm().VBytes(z3.SubString(a[0].t, e.to_int(a[1]), e.to_int(a[2]))))
+    def isfin(e, st, a):
+        from .npelem import _notfin
+        x = a[0]
+        return VBool(z3.Not(_notfin(e, st, x, e.to_int(a[1]), {id(x): (lambda j: j)})))
+    S["isfin"] = GhostSpec("isfin", isfin)
+    GOODF = z3.Function("GOOD", INT, INT)
+    S["GOOD"] = GhostSpec("GOOD", lambda e, st, a: VInt(GOODF(smt.som(e.to_int(a[0])))))
     S["sympad"] = GhostSpec("sympad", sympad)
     S["movef"] = GhostSpec("movef", movef)
     S["dec16"] = GhostSpec("dec16", lambda e, st, a: VReal(DEC16(a[0].t, a[1].t)))
